@@ -73,6 +73,14 @@ func genC08(r *rt.Rand, tier string, idx int) *world.Scenario {
 	} else {
 		sc.Class = "racing-compactions-and-reads"
 		sc.Inactive = swarmSites(r, "kv.get", "kv.commit", "kv.parts")
+		if r.Chance(0.4) {
+			// whoever is about to open an iterator waits a while: a read that has passed its floor check then
+			// sees a whole compaction go by before it scans
+			if sc.Extra == nil {
+				sc.Extra = map[string]int64{}
+			}
+			sc.Extra["stall:kv.iter"] = int64(20 + r.Intn(300))
+		}
 		for c := 0; c < 2+r.Intn(2); c++ {
 			sc.Clients = append(sc.Clients, mk(c, span/2+5))
 		}
